@@ -16,7 +16,7 @@ P = {
          "satisfies the positional envelope predicate; for every admissible field assignment of every parameterised request the payload is exactly "
          "the documented layout (incl. all 7x48 bitmaps); 33 distinct kinds in the generated table. Real Frame.bytes / FrameWriter output checked "
          "against the same predicate.", "response builders (program version, device available) are covered under C03."),
- "C03": ("Theorems C03_roundtrip, C03_reserialise, C03_eq (closed) on the frame model, plus structure-level round trips; implementation "
+ "C03": ("Theorems C03_roundtrip, C03_reserialise, C03_eq on the frame model and C03_netinfo / C03_version (build from data then decode = identity for every network configuration / version triple, with the positional layout) - all closed; implementation "
          "checked for the same relations (Frame.bytes -> FrameReader -> fields; ==/!= on pairs differing in exactly one component).",
          "equality after lazy materialisation of _message/_data is outside the statement."),
  "C04": ("Theorems C04_one and C04_sequence (closed): the reader consumes exactly one well-formed frame whatever its class and, by induction, "
@@ -60,6 +60,13 @@ P = {
          "C18_commit (payload = 01 idx switch param ++ bitmap, 46 bytes) - closed; implementation: exhaustive 48x48x4 edits, invalid inputs, and "
          "real SchedulesResponse -> EcoMAX -> Schedule edits -> commit() frames compared with the model.",
          "datetime.strptime parsing of HH:MM is CPython's; weekday mapping is checked by correspondence through the real device."),
+ "C09": ("Theorem C09_containment (closed): for every number of consumers >= 1 and every sequence of frames (tags distinct) the consumer-side model "
+         "hands every valid frame to its device exactly once in arrival order, queues exactly one reply of the matching kind per controller "
+         "request addressed to the requester, keeps every consumer alive and the read queue balanced (invariant by induction); C09_pinned_refuted "
+         "shows the unguarded (pinned) behaviour violates it. Real AsyncProtocol + FrameReader + fake transport under the virtual-time loop run "
+         "generated sequences; replies, device deliveries, queue balance, producer survival, shutdown completion and the device-available payload "
+         "(against the Coq netinfo encoder) are compared.",
+         "partial: payload decodability is an oracle (real decoder on a fresh device); CPython task scheduling inside one loop iteration is not modelled."),
  "C13": ("Theorems over every operation sequence of the event-manager model (subscribe, subscribe_once, unsubscribe, dispatch tasks, resumption "
          "of suspended callbacks, get with timeout, clock advance; induction with invariants, closed): C13_once (a subscribe_once callback is awaited "
          "at most once), C13_snapshot + C13_spawn_snapshot (every awaited callback belongs to the snapshot its dispatch took when it started, which "
